@@ -76,6 +76,23 @@ def run(ctx):
             peek_depth = _fold(prog, base, c.args[0])
     chain = [st for st in walk_no_nested(open_stream) if isinstance(st, ast.If)]
     for st in chain:
+        # startswith form: peek_data.startswith(MAGIC) compares exactly len(MAGIC) leading bytes
+        for sw in [n for n in ast.walk(st.test) if isinstance(n, ast.Call) and isinstance(n.func, ast.Attribute) and n.func.attr == "startswith" and n.args]:
+            magic = _fold(prog, base, sw.args[0])
+            if isinstance(magic, bytes):
+                flags = [x.id for x in ast.walk(st.test) if isinstance(x, ast.Name) and x.id.startswith("HAS_")]
+                local_objs, lib = {}, None
+                for s0 in st.body:
+                    for a in ast.walk(s0):
+                        if isinstance(a, ast.Assign) and isinstance(a.value, ast.Call):
+                            l = lib_of_call(prog, base, a.value, local_objs)
+                            if l and isinstance(a.targets[0], ast.Name):
+                                rr = prog.resolve_expr(base, a.value.func)
+                                if getattr(rr, "name", None):
+                                    local_objs[a.targets[0].id] = rr.name
+                                lib = lib or l
+                codec = next((k for k, v in SIGNATURES.items() if v == magic), None)
+                sniff[norm(sw.args[0])] = dict(codec=codec, magic=magic, n=len(magic), flags=flags, lib=lib, node=st)
         for cmpn in [n for n in ast.walk(st.test) if isinstance(n, ast.Compare)]:
             if not (len(cmpn.ops) == 1 and isinstance(cmpn.ops[0], ast.Eq) and isinstance(cmpn.left, ast.Subscript)):
                 continue
